@@ -759,7 +759,7 @@ CLONE_RENAME = {'nlabels': 'n_apertures', '_moment_data_cutouts': '_moment_data_
 CLONE_ACCEPTED = {
     ('orientation', 'return mul(div(mul(orient_radians,180),pi),u.deg)', 'return mul(rad2deg(orient_radians),u.deg)'):
         'degrees either way',
-    ('_validate_array', 'test ne(2,array.ndim)', 'test ne(array.ndim,ndim)'): 'ApertureStats takes ndim as a parameter (default 2)',
+    ('_validate_array', 'test eq(2,array.ndim)', 'test eq(array.ndim,ndim)'): 'ApertureStats takes ndim as a parameter (default 2)',
     ('_all_masked', 'return array([all(mask) for mask in self._cutout_total_masks])',
      'return array([all(mask) for mask in self._mask_cutout_center])'): 'each class names its own total mask',
 }
@@ -808,6 +808,16 @@ def _expand_thin(st, thin):
     return ast.fix_missing_locations(T().visit(st))
 
 
+def _slip_shape(node):
+    """Shape of a statement with names, constants and operators abstracted: two copies that differ only in a name, a constant,
+    an index or an operator have the same slip shape (the signature of a copy-paste slip); a re-written statement does not."""
+    if node is None:
+        return None
+    test = node.test if isinstance(node, (ast.If, ast.While)) else node
+    return tuple(type(x).__name__ for x in ast.walk(test)
+                 if not isinstance(x, (ast.Name, ast.Constant, ast.expr_context, ast.operator, ast.cmpop, ast.unaryop, ast.boolop)))
+
+
 def _clone_stmts(f, ren=None, repo=None):
     from ..spec import nf_stmt
     from ..expr import nf, rename
@@ -823,7 +833,16 @@ def _clone_stmts(f, ren=None, repo=None):
             if isinstance(node, (ast.Assign, ast.AugAssign, ast.Return, ast.Expr)):
                 out.append((nf_stmt(node), st0))
             elif isinstance(node, (ast.If, ast.While)):
-                out.append(('test ' + nf(node.test), st0))
+                # one polarity: `if x is None: A else: B` and `if x is not None: B else: A` are the same code
+                t_ = nf(node.test)
+                for neg_, pos_ in (('isnot(', 'is('), ('ne(', 'eq('), ('notin(', 'in(')):
+                    if t_.startswith(neg_):
+                        t_ = pos_ + t_[len(neg_):]
+                        break
+                else:
+                    if t_.startswith('not(') and t_.endswith(')'):
+                        t_ = t_[4:-1]
+                out.append(('test ' + t_, st0))
         except Exception:
             out.append((ast.dump(node)[:200], st0))
     return out
@@ -862,16 +881,20 @@ def run_clones(repo, res, cls_a='photutils.segmentation.catalog.SourceCatalog', 
         only_a = [(s, st) for s, st in sa_ if s not in tb]
         only_b = [(s, st) for s, st in sb if s not in ta]
         diffs = []
+        rewritten = 0
         for (s1, st1) in only_a:
             # pair with the most similar B-only statement
             best = max(only_b, key=lambda x: difflib.SequenceMatcher(None, s1, x[0]).ratio(), default=None)
             s2, st2 = best if best else ('<nothing>', None)
             if (name, s1, s2) in CLONE_ACCEPTED:
                 continue
+            # Only the copy-paste-slip signature is a finding: the two copies have the same statement but for a name, constant,
+            # index or operator.  A statement that was re-written in one copy (another idiom, a temporary, an extra step) is a
+            # refactoring of that copy; whether it preserves behaviour is not something the sibling can tell.
+            if st2 is None or _slip_shape(st1) != _slip_shape(st2):
+                rewritten += 1
+                continue
             diffs.append((s1, s2, st1, st2))
-        if not only_a:
-            for (s2, st2) in only_b:
-                diffs.append(('<nothing>', s2, None, st2))
         n += 1
         res.oblige('CLONE', f'{A.name}.{name} and {B.name}.{name} (copies of the same code) agree', not diffs, nontrivial=True,
                    sample={'method': name, 'similarity': round(sim, 2), 'statements': len(ta)})
